@@ -1,9 +1,17 @@
 package oper
 
+import "math"
+
 // BP BindingPower, Precedence
 // 这里使用 float 是因为可以更精细定义自定义操作符的优先级
 // e.g. 如果需要区分前后缀操作符优先级, 可以自己调整
 type BP float32
+
+// Prev 小于 bp 的最大优先级. 右结合操作符的右操作数用它解析:
+// bp-1 对小数优先级 (落在 (bp-1, bp) 之间的操作符会被错误地吸收) 和很大的优先级 (float32 下 bp-1 == bp) 都不对
+func (bp BP) Prev() BP {
+	return BP(math.Nextafter32(float32(bp), float32(math.Inf(-1))))
+}
 
 //goland:noinspection GoSnakeCaseUsage
 const (
